@@ -621,11 +621,12 @@ __find_zrng(const struct zif_s z[static 1U], stamp_t t, int min, int max)
 
 	trno = __find_trno(z, t, min, max);
 	res.prev = zif_trans(z, trno);
-	if (UNLIKELY(trno <= 0 && t < res.prev)) {
+	if (UNLIKELY(trno < 0 && z->ntr)) {
+		/* T is before the first transition,
+		 * assume the first offset has always been there */
 		res.trno = 0U;
 		res.prev = STAMP_MIN;
-		/* assume the first offset has always been there */
-		res.next = res.prev;
+		res.next = zif_trans(z, 0);
 	} else if (UNLIKELY(trno < 0)) {
 		/* special case where no transitions are recorded */
 		res.trno = 0U;
